@@ -529,7 +529,7 @@ def handle (j : Json) : R Json := do
     | some b => return Json.bool b
     | none => return Json.null
   | "hasglob" => return Json.bool (Glob.hasGlobChars (← str j "s"))
-  | "classify_token" => return Json.str (kindName (classifyToken (← str j "t")))
+  | "classify_token" => return Json.str (kindName (classifyToken (← str j "t") (boolD j "is_path" false)))
   | "expand_token" =>
     return Json.str (expandToken (toPathEnv (j.getObjValD "env")) (← str j "t") (← str j "cwd") (boolD j "force" false))
   | "normpath" => return Json.str (normalizePath (toPathEnv (j.getObjValD "env")) (← str j "path") (← str j "cwd"))
